@@ -217,11 +217,15 @@ abbrev Rec := List (Name × Bool)
 def tagDefs (ns : Ns) (r : Rec) : List Name :=
   r.filterMap (fun kv => if defined ns.defs kv.1 then some kv.1 else none)
 
-/-- `markers`: the tags that have a def AND carry a Marker -/
-def markerTags (ns : Ns) (r : Rec) : List Name :=
-  extendSet [] (r.filterMap (fun kv => if defined ns.defs kv.1 && kv.2 then some kv.1 else none))
+/-- `markers`: EVERY tag that carries a Marker (`subject.has_marker(key)`), whether or not the tag has a def of
+its own (since the repair of `reflect`; before, a Marker tag without a def was left out and a conjunct with such
+a part was never found) -/
+def markerTags (r : Rec) : List Name :=
+  extendSet [] (r.filterMap (fun kv => if kv.2 then some kv.1 else none))
 
-/-- `find_conjuncts` -/
+/-- `find_conjuncts`: for every marker `m`, for every entry `parts` the `conjuncts_keys` index holds under `m`
+(= the remaining parts of a conjunct def whose FIRST part is `m`): if all of `parts` are in `markers`, look
+`m-parts..` up with `get_by_name` -/
 def findConjuncts (ns : Ns) (markers : List Name) : List Name :=
   markers.flatMap (fun m =>
     (lookup m ns.conjKeys).filterMap (fun parts =>
@@ -240,7 +244,7 @@ def findSupertypesFromDefs (fuel : Nat) (ns : Ns) : List Name → List Name → 
 
 /-- `reflect(subject).defs` -/
 def reflect (fuel : Nat) (ns : Ns) (r : Rec) : Res (List Name) :=
-  findSupertypesFromDefs fuel ns (tagDefs ns r ++ findConjuncts ns (markerTags ns r)) []
+  findSupertypesFromDefs fuel ns (tagDefs ns r ++ findConjuncts ns (markerTags r)) []
 
 /-- `defs.iter().any(|def| ns.fits(def, base))` -/
 def anyFits (fuel : Nat) (ns : Ns) (base : Name) : List Name → Res Bool
